@@ -489,7 +489,14 @@ def check_add(P, R, f):
         # several sinks may be defined by name (one per mode): the one under examination is the one that feeds setitem
         feeding = [x for x in adds if any(isinstance(c_, ast.Call) and dotted(c_.func) in sink_names for c_ in ast.walk(x.node))]
         a = (feeding or adds)[0]
-        k, v = a.params[0], a.params[1]
+        if len(a.params) == 1:
+            # the sink takes the pair as one tuple: `def add(pair): k, v = pair`
+            first_ = [st_ for st_ in a.node.body if isinstance(st_, ast.Assign) and isinstance(st_.targets[0], ast.Tuple) and len(st_.targets[0].elts) == 2
+                      and isinstance(st_.value, ast.Name) and st_.value.id == a.params[0] and all(isinstance(e_, ast.Name) for e_ in st_.targets[0].elts)]
+            R.require(len(first_) == 1, 'parse_qsl.add: `key, value = <pair>` not found')
+            k, v = [e_.id for e_ in first_[0].targets[0].elts]
+        else:
+            k, v = a.params[0], a.params[1]
     else:
         # the sink may be a small callable object of the package: `add = _Setter(setitem)` with the logic in __call__
         a = None
@@ -638,6 +645,14 @@ def check_decode_order(P, R, f, unq):
     g, rd = f.cfg, f.rd
     add_calls = [c for c in walk_shallow(f.node) if isinstance(c, ast.Call) and isinstance(c.func, ast.Name) and c.func.id == 'add'
                  and len(c.args) == 2]
+    # (the pair may be handed over as one tuple: add((key, value)))
+    for c in walk_shallow(f.node):
+        if isinstance(c, ast.Call) and isinstance(c.func, ast.Name) and c.func.id == 'add' and len(c.args) == 1 and isinstance(c.args[0], ast.Tuple) \
+                and len(c.args[0].elts) == 2 and not c.keywords:
+            c2 = ast.copy_location(ast.Call(func=c.func, args=list(c.args[0].elts), keywords=[]), c)
+            c2._p = getattr(c, '_p', None)
+            c2._orig = c
+            add_calls.append(c2)
     R.require(add_calls, 'parse_qsl never calls add(key, value)')
 
     def is_plus_replace(x):
@@ -694,7 +709,7 @@ def check_decode_order(P, R, f, unq):
                  f'is taken for the raw form of another name (a%2Bb=1&a+b=2 merges two different keys)',
                  why="'+' and percent-escapes decode to what was sent", key_extra=f'table:{tb}')
     for c in add_calls:
-        cn = g.node_of_stmt(c)[0]
+        cn = g.node_of_stmt(getattr(c, '_orig', c))[0]
         for role, arg in (('key', c.args[0]), ('value', c.args[1])):
             defs = rd.at(cn, arg.id) if isinstance(arg, ast.Name) else []
             exprs = [d.value for d in defs if d.value is not None] if defs else [arg]
